@@ -1,5 +1,6 @@
 import Driver.Util
 import Driver.BPE
+import Driver.Vocab
 import Driver.Sparse
 import Driver.Heap
 import Driver.Twin
@@ -13,6 +14,7 @@ namespace Driver
 
 def handlers : List (String → Json → Option (R Json)) := [
   Driver.BPE.handle,
+  Driver.Vocab.handle,
   Driver.Sparse.handle,
   Driver.HeapD.handle,
   Driver.Twin.handle
